@@ -12,6 +12,7 @@ import (
 	"strconv"
 	"strings"
 	"sync"
+	"time"
 
 	"github.com/google/pprof/internal/graph"
 	"github.com/google/pprof/internal/report"
@@ -857,12 +858,23 @@ func c05CLICheck(c *Ctx, cs *c05Case, res cliResult) {
 		return
 	}
 	rq := reportReq(q, cs.Format)
-	U, perr := askTables(c, "graph.spec", &rq, nil, false, p0, Canon(p0))
-	if perr != "" {
-		c.Disagree("C05/spec-unavailable", perr, "driver op graph.spec", cs)
-		return
+	canon0 := Canon(p0)
+	// the untrimmed Spec tables of a LARGE profile are asked once per option point (several CLI
+	// cases of the web stream share profile and options)
+	ck := rq.String() + "|" + canon0
+	U := c05BigSpec[ck]
+	if U == nil {
+		var perr string
+		U, perr = askTables(c, "graph.spec", &rq, nil, false, p0, canon0)
+		if perr != "" {
+			c.Disagree("C05/spec-unavailable", perr, "driver op graph.spec", cs)
+			return
+		}
+		if len(canon0) > 20000 {
+			c05BigSpec[ck] = U
+		}
 	}
-	c05CheckTrimmed(c, cs, "cli", res.out, U, rq, p0, Canon(p0), peekEmpty)
+	c05CheckTrimmed(c, cs, "cli", res.out, U, rq, p0, canon0, peekEmpty)
 }
 
 func c05Run(c *Ctx, cs *c05Case) {
@@ -1148,7 +1160,9 @@ func runC05(c *Ctx) {
 		}
 	}
 	// (e) web UI stream and CLI reports on profiles larger than every built-in limit
+	tWeb := time.Now()
 	c05WebStream(c, &cliCases)
+	c05Debug("web stream: %v (generation before it: see total)", time.Since(tWeb))
 	results := make([]cliResult, len(cliCases))
 	var wg sync.WaitGroup
 	sem := make(chan struct{}, 12)
@@ -1162,15 +1176,22 @@ func runC05(c *Ctx) {
 		}(i, cs)
 	}
 	wg.Wait()
+	c05Debug("pprof processes done: %v since web stream start", time.Since(tWeb))
 	for i, cs := range cliCases {
 		c05Removed = false
+		tc := time.Now()
 		c05CLICheck(c, cs, results[i])
+		if d := time.Since(tc); d > 300*time.Millisecond {
+			c05Debug("slow CLI check %v: %v", d, cs.cliArgs("F")[:4])
+		}
 		c.Res.Count(cs.Profile+"cli"+strings.Join(cs.cliArgs("F"), " "), c05Removed)
 	}
 	if c04TmpDir != "" {
 		os.RemoveAll(c04TmpDir)
 	}
 }
+
+var c05BigSpec = map[string]*gTable{}
 
 // c05Removed is set by c05CheckTrimmed when the report shows fewer entries than the untrimmed
 // graph has (the non-triviality criterion of the report/cli levels).
